@@ -34,6 +34,7 @@
 -/
 import GherkinVerif.Lemmas.NoCrash
 import GherkinVerif.Props.C03Tree
+import GherkinVerif.KDecide
 namespace GV
 open Spec
 
@@ -168,20 +169,20 @@ def docStringTree : TTree :=
     tree are complete, their leaves well matched, their doc strings opened — and they are document
     trees, so `C01_builder_no_crash` applies; both succeed -/
 example : Complete docTree ∧ DocStringsOpened docTree ∧ (∀ tk ∈ leaves docTree, WellMatched tk) ∧
-    docTree.isDocument = true := by decide +kernel
+    docTree.isDocument = true := by kdecide
 example : Complete docStringTree ∧ DocStringsOpened docStringTree ∧
-    (∀ tk ∈ leaves docStringTree, WellMatched tk) ∧ docStringTree.isDocument = true := by decide +kernel
+    (∀ tk ∈ leaves docStringTree, WellMatched tk) ∧ docStringTree.isDocument = true := by kdecide
 example : (docOf ((astOf [] docStringTree).run.run 0)).map (fun d => d.feature.map fun f => f.children.length) =
-    some (some 1) := by decide +kernel
+    some (some 1) := by kdecide
 example : (applyOps (opsOf docStringTree) BState.reset 0).2.1.result.toOption.join.isSome = true := by
-  decide +kernel
+  kdecide
 
 /-- the ragged-table outcome occurs: a complete, well-matched tree whose value is that error -/
 example :
     let t : TTree := .node .DataTable [.leaf rowTok1, .leaf rowTokShort]
     Complete t ∧ DocStringsOpened t ∧ (∀ tk ∈ leaves t, WellMatched tk) ∧
     errOf ((astOf [] t).run.run 0) = some (.inr .raggedTable) := by
-  decide +kernel
+  kdecide
 
 /-- Why completeness is assumed, and why grammar shape does not replace it: a `Step` node without
     its step line is grammar-shaped, has (no) well-matched leaves — and crashes. -/
@@ -189,14 +190,14 @@ example :
     let t : TTree := .node .Step []
     GrammarShaped t ∧ ¬ Complete t ∧ (∀ tk ∈ leaves t, WellMatched tk) ∧
     errOf ((astOf [] t).run.run 0) = some (.inl "AttributeError: get_token(StepLine) is None") := by
-  decide +kernel
+  kdecide
 
 /-- Why the leaves must be well matched: a step line whose keyword type was never set. -/
 example :
     let t : TTree := .node .Step [.leaf badStepTok]
     Complete t ∧ ¬ WellMatched badStepTok ∧
     errOf ((astOf [] t).run.run 0) = some (.inl "missing field step.keywordType") := by
-  decide +kernel
+  kdecide
 
 /-- Why the doc strings must be opened: with the closing separator (well matched: it has its
     keyword) first, the builder reads the media type of a separator that has none. -/
@@ -204,13 +205,13 @@ example :
     let t : TTree := .node .DocString [.leaf closeTok, .leaf sepTok]
     Complete t ∧ (∀ tk ∈ leaves t, WellMatched tk) ∧ ¬ DocStringsOpened t ∧
     errOf ((astOf [] t).run.run 0) = some (.inl "missing field docstring separator text") := by
-  decide +kernel
+  kdecide
 
 /-- A feature without header, a header without keyword line: `None`, not an error — which is why
     they are not among the required children. -/
 example : ((astOf [] (.node .Rule [])).run.run 0).1.toOption.isSome = true ∧
     ((astOf [] (.node .Feature [.node .FeatureHeader []])).run.run 0).1.toOption.isSome = true := by
-  decide +kernel
+  kdecide
 
 /-- the matcher lemmas are not vacuous: an opening separator matches outside a doc string and
     gets its text; inside a doc string opened by the same delimiter the line closes it and gets
@@ -222,7 +223,7 @@ example :
     let c := matchLine [] .DocStringSeparator o.μ t (lit "```json")
     (decide (o.res matches .matched), o.tok.text.isSome, o.μ.inDocString) = (true, true, true) ∧
     (decide (c.res matches .matched), c.tok.text.isSome, c.μ.inDocString) = (true, false, false) := by
-  decide +kernel
+  kdecide
 
 end examples
 end GV
